@@ -491,6 +491,9 @@ def run(cfg):
         if cfg.get("presteps"):                 # members that enter with non-zero step counters (a second training call, a resumed run)
             for a, p_ in zip(pop, cfg["presteps"]):
                 a.steps = [int(p_)]
+        if cfg.get("hetero_batch"):             # members with different batch sizes (as a batch_size mutation produces)
+            for a, b_ in zip(pop, cfg["hetero_batch"]):
+                a.batch_size = int(b_)
         if cfg.get("hetero"):                   # a population whose members differ in learn_step (as rl_hp mutation produces):
             for i, a in enumerate(pop):         # on-policy members then take different numbers of steps per generation
                 a.learn_step = int(cfg["learn_step"]) + (i % 2) * int(cfg["hetero"])
